@@ -247,7 +247,8 @@ func (d *vBounceDelivery) Body(ctx context.Context, header textproto.Header, bod
 func (d *vBounceDelivery) Commit(ctx context.Context) error { return nil }
 func (d *vBounceDelivery) Abort(ctx context.Context) error  { return nil }
 
-var vAddrs = []string{"a@example.org", "b@example.org", "c@xn--e1aybc.example", "d@тест.example", "ü@example.org", "B@EXAMPLE.org"}
+var vAddrs = []string{"a@example.org", "b@example.org", "c@xn--e1aybc.example", "d@тест.example", "ü@example.org", "B@EXAMPLE.org",
+	"bob@mail_gw.example.org", "e@-odd-.example.org"} // hosts the IDNA lookup profile would refuse: still plain recipients
 
 func vRunCase(t *testing.T, out *vOut, dir string, maxTries int, bounce, nullSender bool, to []string, plans []vPlan, stats map[string]int) {
 	var trace []string
